@@ -40,6 +40,12 @@ def run(ctx: core.Ctx) -> int:
     it = sc.it
     scenarios.transfer(it, ctx, rules={"ARR-MM", "ARR-EW", "LAY-SLOT"}, funcs=["ExtendedKalmanFilter.process_model",
                                                                                 "ExtendedKalmanFilter._construct_process"])
+    # G, V and f are inputs of the prediction: their argument layouts and un-flatten nests (shared with C01/C03)
+    ctx.rule("LAY-CALL", "execute() actuals == the block's arglist (state model and both Jacobians)")
+    ctx.rule("LAY-FLAT", "G, V are un-flattened with the row stride of the compiled Jacobians")
+    ctx.rule("LAY-ZIP", "state-model results are zipped with the sorted state names")
+    scenarios.transfer(it, ctx, rules={"LAY-CALL", "LAY-FLAT", "LAY-ZIP"},
+                       funcs=["ExtendedKalmanFilter.process_jacobian", "ExtendedKalmanFilter.control_jacobian", "Model.model"])
     file = "py/formak/python.py"
     qual = "ExtendedKalmanFilter.process_model"
     G, V = MatForm.atom("G"), MatForm.atom("V")
